@@ -284,14 +284,15 @@ def _transform_solution_to_original_domain(result, tf, no_derivs, order):
 
     # Note this is its own function because it is used twice for solve_ode_ivp and bv.
     def interpolate_wrt_original_var(pt):
+        # A scalar point is evaluated like an array of one point (as scipy's OdeSolution does).
+        scalar = np.ndim(pt) == 0
+        pt = np.atleast_1d(np.asarray(pt, dtype=float))
         transf_pts = tf.transform(pt)
         # Row is which func/deriv and Col is points.
         interpolated = result.sol(transf_pts)
         # If derivatives are not wanted then only return y(x).
         if no_derivs:
-            if interpolated.ndim == 1:
-                return interpolated
-            return interpolated[0, :]
+            return interpolated[0, 0] if scalar else interpolated[0, :]
         deriv_funcs = [tf.deriv, tf.deriv2, tf.deriv3]
         new_interpolate = np.zeros(interpolated.shape)
         new_interpolate[0, :] = interpolated[0, :]
@@ -299,7 +300,7 @@ def _transform_solution_to_original_domain(result, tf, no_derivs, order):
             # Calculate the jacobian dr/dx of the original domain.
             deriv = _derivative_transformation_matrix(deriv_funcs, pt[i], order - 1)
             new_interpolate[1:, i] = deriv.dot(interpolated[1:, i])
-        return new_interpolate
+        return new_interpolate[:, 0] if scalar else new_interpolate
 
     return interpolate_wrt_original_var
 
@@ -491,7 +492,9 @@ def _derivative_transformation_matrix(deriv_func_list: list, point: float, order
             f"functions {len(deriv_func_list)} provided."
         )
     # Calculate derivatives of transformation evaluated at the point
-    derivs_at_pt = np.array([dev(point) for dev in deriv_func_list], dtype=float)
+    # Transform classes take arrays (and may return arrays of one element), so evaluate on an array of one point.
+    pt = np.array([point], dtype=float)
+    derivs_at_pt = np.array([np.ravel(dev(pt))[0] for dev in deriv_func_list], dtype=float)
     deriv_transf = np.zeros((order, order))
     for i in range(0, order):
         for j in range(0, i + 1):
